@@ -25,6 +25,7 @@ import (
 	"net"
 	"strings"
 	"sync"
+	"sync/atomic"
 	"time"
 
 	mqPkts "github.com/eclipse/paho.mqtt.golang/packets"
@@ -50,6 +51,7 @@ type handler1 struct {
 	keepAlive        uint16
 	clientID         string
 	topicID          *util.IDSequence
+	idsExhausted     uint32 // non-zero once all TopicIDs were handed out (atomic)
 	pktBuffer        []snPkts.Packet
 	group            *errgroup.Group
 	transactions     *transactions.TransactionStore
@@ -484,8 +486,15 @@ func (h *handler1) mqttReceiveLoop(ctx context.Context) error {
 }
 
 func (h *handler1) newTopicID() (uint16, error) {
+	// The IDSequence wraps around and signalizes the overflow only once,
+	// hence we must remember it: TopicIDs handed out after the wrap-around
+	// are already used by this session.
+	if atomic.LoadUint32(&h.idsExhausted) != 0 {
+		return 0, ErrTopicIDsExhausted
+	}
 	topicID, overflow := h.topicID.Next()
 	if overflow {
+		atomic.StoreUint32(&h.idsExhausted, 1)
 		return 0, ErrTopicIDsExhausted
 	}
 	for {
@@ -493,6 +502,7 @@ func (h *handler1) newTopicID() (uint16, error) {
 			break
 		}
 		if topicID, overflow = h.topicID.Next(); overflow {
+			atomic.StoreUint32(&h.idsExhausted, 1)
 			return 0, ErrTopicIDsExhausted
 		}
 	}
